@@ -204,7 +204,9 @@ fn mix(a: u64, b: u64, c: u64) -> u64 {
 fn explore_script(idx: usize, entry: &Value, depth: usize, max_dfs: usize, random: usize, seed: u64, out: &mut Out) {
     let text = entry["text"].as_str().unwrap_or("");
     let sid = &entry["sid"];
-    let mut seen: HashSet<u64> = HashSet::new();
+    // distinct traces of this script: hash -> (index into `firsts`, multiplicity)
+    let mut seen: std::collections::HashMap<u64, usize> = std::collections::HashMap::new();
+    let mut firsts: Vec<(Value, u64)> = vec![];
     let mut k: u64 = 0;
     let mut emit = |r: &ShellResult, kind: &str, out: &mut Out| {
         let run = (idx as u64) * 1_000_000 + k;
@@ -218,22 +220,24 @@ fn explore_script(idx: usize, entry: &Value, depth: usize, max_dfs: usize, rando
         let mut h = DefaultHasher::new();
         lines.hash(&mut h);
         let hash = h.finish();
-        let fresh = seen.insert(hash);
-        if fresh {
-            out.trace.push(json!({"ev": "reset", "run": run, "sid": sid}).to_string());
-            for b in &rec.batches {
-                out.trace.push(b.to_json(run).to_string());
-            }
-            let mut end = rec.end.clone();
-            end["run"] = json!(run);
-            out.trace.push(end.to_string());
+        if let Some(&i) = seen.get(&hash) {
+            firsts[i].1 += 1;
+            return;
         }
+        seen.insert(hash, firsts.len());
+        out.trace.push(json!({"ev": "reset", "run": run, "sid": sid}).to_string());
+        for b in &rec.batches {
+            out.trace.push(b.to_json(run).to_string());
+        }
+        let mut end = rec.end.clone();
+        end["run"] = json!(run);
+        out.trace.push(end.to_string());
         let choices: Vec<usize> = r.choices.iter().map(|c| c.0).collect();
-        out.summary.push(
-            json!({"run": run, "script": idx, "kind": kind, "choices": choices, "fresh": fresh, "hash": format!("{hash:016x}"),
-                   "polls": r.polls, "digest": rec.digest})
-            .to_string(),
-        );
+        firsts.push((
+            json!({"run": run, "script": idx, "kind": kind, "choices": choices, "hash": format!("{hash:016x}"),
+                   "polls": r.polls, "digest": rec.digest}),
+            1,
+        ));
     };
     // depth-first over the first `depth` choice points
     let mut prefix: Vec<usize> = vec![];
@@ -254,6 +258,11 @@ fn explore_script(idx: usize, entry: &Value, depth: usize, max_dfs: usize, rando
     for i in 0..random {
         let r = run(text, Schedule::Random(mix(seed, idx as u64, i as u64)));
         emit(&r, "random", out);
+    }
+    drop(emit);
+    for (mut v, mult) in firsts {
+        v["mult"] = json!(mult);
+        out.summary.push(v.to_string());
     }
     out.summary.push(json!({"script": idx, "dfs_runs": n, "dfs_exhausted": exhausted, "random_runs": random}).to_string());
 }
